@@ -265,7 +265,7 @@ func (b *Backend) handle(c net.Conn) {
 			return
 		}
 		body, _ := io.ReadAll(req.Body)
-		if p == "/health" || strings.HasSuffix(p, "/zz-health") {
+		if p == "/health" || strings.HasSuffix(p, "/zz-health") || (req.Method == "GET" && strings.HasSuffix(p, "/health") && strings.HasPrefix(strings.ToLower(req.Header.Get("User-Agent")), "olla")) {
 			atomic.AddInt64(&b.healthHits, 1)
 			st := int(atomic.LoadInt32(&b.HealthStatus))
 			if st == 0 {
